@@ -493,6 +493,16 @@ func (e *Enc) encUnOp(ins *ssa.UnOp, st *State) {
 			}
 		}
 		e.assumeWFg(e.val[ins], ins.Type(), st, "true")
+		// package-level error values (var ErrX = errors.New(...), fs.SkipDir, io.EOF ...) are created
+		// non-nil at initialisation and are not reassigned (Go convention, assumed): a load of a
+		// package-level variable of type error whose name starts with Err/err/Skip/EOF is non-nil
+		if g, isG := ins.X.(*ssa.Global); isG && e.st.sortOf(ins.Type()) == "Iface" {
+			nm := g.Name()
+			if strings.HasPrefix(nm, "Err") || strings.HasPrefix(nm, "err") || strings.HasPrefix(nm, "Skip") || nm == "EOF" {
+				e.assume(fmt.Sprintf("(not (= %s iface.nil))", e.val[ins]))
+				e.note("package-level error value " + g.String() + " taken to be non-nil")
+			}
+		}
 		// remember where a loaded pointer came from (needed for sync.Cond receivers)
 	case token.NOT:
 		e.setVal(ins, fmt.Sprintf("(not %s)", e.term(ins.X)))
